@@ -387,7 +387,7 @@ pub fn models(tier: Tier, seed: u64) -> Vec<Box<dyn DynModel>> {
 }
 
 pub fn describe(tier: Tier, r: &mut Report) {
-    r.rule = "part A (exhaustive, hooked entropy): all histories of the 12 randomized entry points (the four message taking ones with four message lengths each) plus three trait level ElGamal entry points with a caller pinned blinder / generator: 27 operations with identical arguments up to the length bound; each history runs three times - entropy answers A, A again, B: (I1) all ephemerals (points, masks, secrets) of all calls pairwise distinct, (I3) every ephemeral differs between A and B, (I2) A reproduces A, otherwise entropy is drawn outside the seam (machinery failure, not a verdict). part B (free running with real entropy - a sample, not an enumeration): N calls per entry point on 4 threads without a repeated ephemeral, and two independent processes with disjoint ephemerals".into();
+    r.rule = "part A (exhaustive, hooked entropy): all histories of the 12 randomized entry points (the four message taking ones with four message lengths each) plus three trait level ElGamal entry points with a caller pinned blinder / generator: 27 operations with identical arguments up to the length bound; each history runs three times - entropy answers A, A again, B: (I1) all ephemerals (points, masks, secrets) of all calls pairwise distinct, (I3) every ephemeral differs between A and B, (I2) A reproduces A, otherwise entropy is drawn outside the seam (machinery failure, not a verdict). part B (free running with real entropy - a sample, not an enumeration): N calls per entry point on 4 threads without a repeated ephemeral, and two independent processes with disjoint ephemerals; every aligned 16 byte block of the signcryption and time-lock masks is a fingerprint of its own".into();
     r.deviation_bound_completed = format!("histories of length <= {}", if tier.thorough() { 3 } else { 2 });
     r.alphabet.insert("entry_points".into(), serde_json::json!(OPS));
     r.alphabet.insert("free_running_calls_per_entry_point".into(), serde_json::json!(if tier.thorough() { 4096 } else { 256 }));
